@@ -100,7 +100,9 @@ fn c11_o2_inductive_add_2() {
 
 //@ ob: C11.O2u
 //@ tier: thorough
-//@ cap: 1500
+//@ cap: 2400
+//@ rss: 4.0
+//@ time: 554
 //@ standins: vcoll
 //@ desc: the same inductive step as C11.O2 with the BEP42 prefix function abstracted: id_prefix_ipv4 (CRC32C of the masked IP and r) is an uninterpreted function P(ip, r), so the step holds for every way of classifying nodes as secure that is a function of (ip, r) and the id's 21-bit prefix; C11.O1 and C19.O3 bind the real CRC
 //@ bounds: as C11.O2 (target and 3 nodes with 4 symbolic id bytes each, fully symbolic IPv4); P: at most 4 distinct (ip, r) arguments; unwind 21
